@@ -5,10 +5,10 @@ why={
 'C01-m2':'fork expansion (expandForkFromObj) not under contract',
 'C01-m3':'ForkId.Match not under contract (only Matches/matchPart are abstracted)',
 'C02-m1':'contract for setPrenode removed (map aliasing, see I.3)',
-'C03-m1':'fork expansion not under contract',
+'C03-m1':'static fork enumeration (expandStaticForkPart) not under contract',
 'C05-m1':'resets not under contract (history property)',
 'C05-m2':'restore of dynamic forks not under contract',
-'C07-m2':'RefExp.resolveType not under contract',
+'C07-m2':'RefExp.resolveType not under contract (the clause needs the value of a local at the return; tried)',
 'C09-m2':'comment placement not under contract',
 'C09-m4':'comment placement not under contract',
 'C10-m2':'sort.Slice is trusted to sort; comparator consistency is not an obligation',
@@ -23,7 +23,7 @@ why={
 'C17-m2':'float64/int64 conversion is not modelled (reals)',
 'C18-m2':'script assembly not under contract',
 'C18-m4':'script assembly (jobScript) not under contract',
-'C03-m4':'fork expansion not under contract',
+'C03-m4':'static fork enumeration (expandStaticForkPart) not under contract',
 'C05-m4':'Metadata.restartLocal not under contract (process liveness is OS state)',
 'C06-m4':'Metadata.checkedReset not under contract',
 'C07-m3':'fieldType not under contract',
@@ -32,6 +32,10 @@ why={
 'C13-m4':'StructType.compile not under contract (duplicate output names)',
 'C17-m3':'JSON well-formedness of rebuilt objects not under contract',
 'C17-m4':'core.resolvePath not under contract',
+'C07-m5':'MergeMapCallSources (merging of split-source sets) not under contract',
+'C09-m5':'CallStm.format: the appended modifier binding passes through sort.Slice, whose effect on the list is modelled as a havoc (tried)',
+'C13-m6':'order of file-system probes in moveOutFile (needs a crash between rename and record): file system not modelled',
+'C16-m6':'IncludeFilePath (path-prefix logic over MROPATH) not under contract',
 
 }
 rows=[]
